@@ -29,7 +29,16 @@ static bool my_domain(const Cfg &c, const double *x){
     if (c.dom == 0){ for(int j=0;j<c.d;j++) if (x[j] < -1.0 || x[j] > 1.0) return false; return true; }
     double v = x[0] + (c.d > 1 ? 0.5 * x[1] : 0.0); return v >= 0.0;
 }
+// pdf 3: the library's own posterior(model, LikelihoodGaussIsotropic, uniform_prior) composition (deterministic, one value per candidate strip)
+static TasDREAM::LikelihoodGaussIsotropic g_likely;
+static void init_posterior(){ g_likely.setData(0.05, std::vector<double>{0.3, 0.2}); }
+static void posterior_eval(const Cfg &c, const std::vector<double> &cand, std::vector<double> &vals){
+    using namespace TasDREAM; int d = c.d;
+    DreamModel model = [d](const std::vector<double> &x, std::vector<double> &outs)->void{ size_t m = x.size() / (size_t) d; outs.resize(2 * m); for(size_t i=0;i<m;i++){ double x0 = x[i * (size_t) d]; outs[2*i] = x0; outs[2*i+1] = x0 * x0 + (d > 1 ? x[i * (size_t) d + 1] : 0.0); } };
+    if (c.form) posterior<logform>(model, g_likely, uniform_prior)(cand, vals); else posterior<regform>(model, g_likely, uniform_prior)(cand, vals);
+}
 static double my_pdf(const Cfg &c, const double *x){
+    if (c.pdf == 3){ std::vector<double> cand(x, x + c.d), v(1); posterior_eval(c, cand, v); return v[0]; }
     if (c.pdf == 0) return c.form ? std::log(0.7) : 0.7;
     if (c.pdf == 1){ const double ctr[2] = {0.3, 0.1}; double r2 = 0; for(int j=0;j<c.d;j++) r2 += (x[j] - ctr[j]) * (x[j] - ctr[j]); return c.form ? -8.0 * r2 : std::exp(-8.0 * r2); }
     const double lo[2] = {0.05, -0.25}, hi[2] = {0.5, 0.25}; bool in = true; for(int j=0;j<c.d;j++) if (!(x[j] >= lo[j] && x[j] <= hi[j])) in = false;
@@ -56,7 +65,7 @@ static void run_library(const Cfg &c, const Runs &runs, const Str &s, Exec &ex){
     auto rng = [&]()->double{ double v = sc.next(); log.add('R', false, &v, 1, nullptr, 0); return v; };
     DreamDomain lib_cube = hypercube(std::vector<double>((size_t) c.d, -1.0), std::vector<double>((size_t) c.d, 1.0));
     auto inside = [&](const std::vector<double> &x)->bool{ bool a = (c.dom == 0) ? lib_cube(x) : my_domain(c, x.data()); log.add('I', a, x.data(), x.size(), nullptr, 0); return a; };
-    auto pdf = [&](const std::vector<double> &cand, std::vector<double> &vals)->void{ size_t m = cand.size() / (size_t) c.d; for(size_t i=0;i<m && i<vals.size();i++) vals[i] = my_pdf(c, &cand[i * (size_t) c.d]); log.add('P', false, cand.data(), cand.size(), vals.data(), vals.size()); };
+    auto pdf = [&](const std::vector<double> &cand, std::vector<double> &vals)->void{ size_t m = cand.size() / (size_t) c.d; if (c.pdf == 3) posterior_eval(c, cand, vals); else for(size_t i=0;i<m && i<vals.size();i++) vals[i] = my_pdf(c, &cand[i * (size_t) c.d]); log.add('P', false, cand.data(), cand.size(), vals.data(), vals.size()); };
     auto user = [&](std::vector<double> &x)->void{ double before[MAXD] = {0, 0}; std::copy_n(x.begin(), std::min<size_t>(x.size(), MAXD), before); double u = rng(); my_user_update(c, x.data(), u); log.add('U', false, before, x.size(), x.data(), x.size()); };
     std::function<double(void)> diff = (c.diff == 0) ? std::function<double(void)>(const_percent<0>) : (c.diff == 1) ? std::function<double(void)>(const_one) : std::function<double(void)>(const_percent<50>);
     TasmanianDREAM state(c.n, c.d);
@@ -268,7 +277,7 @@ static std::string crash_signature(const vf::Outcome &o, long last_sym){ std::st
 // ---------------------------------------------------------------- main
 struct UnitDef { int n, d, form, upd, diff; };
 int main(int argc, char **argv){
-    reexec_with_small_quarantine(argv);
+    reexec_with_small_quarantine(argv); init_posterior();
     vf::Args A(argc, argv); g_tier = A.get("--tier", "quick");
     double dl = A.getd("--deadline", 0); if (dl > 0) vf::g_deadline = vf::now() + dl;
     if (A.has("--replay")){
@@ -294,7 +303,9 @@ int main(int argc, char **argv){
         const UnitDef &u = U[ui]; Runner R; double t0 = vf::now();
         { std::ostringstream nm; nm << "n" << u.n << "/d" << u.d << "/" << (u.form ? "log" : "reg") << "/upd-" << Cfg::updname(u.upd) << "/diff" << u.diff; R.unit = nm.str(); }
         long ncfg = 0, ncases = 0, maxLA = 0, len1 = 0; std::string sample;
-        for(int dom=0; dom<3 && R.complete; dom++) for(int pdf=0; pdf<3 && R.complete; pdf++){
+        for(int dom=0; dom<3 && R.complete; dom++) for(int pdf=0; pdf<4 && R.complete; pdf++){
+            if (!th && u.n == 3 && (dom + pdf + u.form + u.upd) % 2 == 1) continue; // quick: half of the (domain, pdf) pairs for the most expensive shape
+            if (pdf == 3 && (dom == 2 || (!th && dom != 0))) continue; // the posterior composition: not with the empty domain (never evaluated there); quick: only with the hypercube
             Cfg c; c.n = u.n; c.d = u.d; c.form = u.form; c.upd = u.upd; c.diff = u.diff; c.dom = dom; c.pdf = pdf; len1 = c.len1();
             long LA = 0; std::vector<Case> cases = make_cases(c, LA); maxLA = std::max(maxLA, LA);
             std::set<std::pair<char,int>> poison; // (role, symbol) pairs established as crashing for this configuration
@@ -314,7 +325,7 @@ int main(int argc, char **argv){
         if (!sample.empty()) vf::emit(vf::J().s("t","sample").raw("case", sample));
     });
     vf::emit(vf::J().s("t","summary").i("units_total", (long long) U.size()).i("units_done", (long long) done)
-        .s("bound", std::string("C15 tier=") + g_tier + ": chains{1,2,3} x dims{1,2} x forms x updates{none,uniform,gaussian,user} x differential{0,1,0.5} x domains{hypercube,halfspace,nothing} x pdfs{constant,peaked,boxzero}"
+        .s("bound", std::string("C15 tier=") + g_tier + ": chains{1,2,3} x dims{1,2} x forms x updates{none,uniform,gaussian,user} x differential{0,1,0.5} x domains{hypercube,halfspace,nothing} x pdfs{constant,peaked,boxzero,posterior(model,LikelihoodGaussIsotropic,uniform_prior)" + (th ? " [posterior not with the empty domain]" : " [quick: posterior only with the hypercube; for 3 chains half of the (domain, pdf) pairs]") + "}"
            + "; answer strings over {0,.25,.5,.75,1}: one iteration exhaustive to length min(one iteration, " + (th ? "7 (6 for 3 chains)" : "5") + ") at the start and at the end of the iteration; "
            + (th ? "3" : "2") + " iterations with <= 2 deviations from 0.5; run splittings (b1,c1,b2,c2) in {0,1,2}^4" + (th ? "" : " with total <= 4") + " x (default + every single deviation in the first " + (th ? "iteration" : "4 draws") + ")")
         .b("exhaustive", done == U.size() && !vf::past_deadline()));
